@@ -649,6 +649,38 @@ def T6(ctx, rule="T6"):
                 ctx.bad(rule, "step|%s" % short(b.id), m.where(b, bb),
                         "the countdown of remaining functions changes by `%s %s`, not by `- 1`: its `== 0` test is stepped over or reached early/never" % (
                             "-" if op.startswith("Sub") else "+", fmt_expr(expr_operand(b, b_), b)))
+    # count-up form (`streamed += 1; if streamed == total`): the counter compared with the number of functions steps by 1 too
+    for bid in sorted(sched):
+        b = ctx.fb.bodies.get(bid)
+        if b is None or ctx.fb.is_test_body(b):
+            continue
+        ups = []
+        for sb, blk in enumerate(b.blocks):
+            if blk["term"]["k"] == "switch":
+                de = strip_refs(switch_expr(b, sb))
+                if de.kind == "binop" and de[1] in ("Eq", "Ne"):
+                    c2 = classify_value_as_guard(ctx, b, de, True)
+                    if c2 and str(c2[1]).startswith("count-up "):
+                        ups.append(de)
+        if not ups:
+            continue
+        for bb, si, st in b.stmts():
+            if st["k"] != "assign" or st["rv"]["k"] not in ("binop", "checked_binop") or st["rv"].get("op") not in ("Add", "AddWithOverflow", "Sub", "SubWithOverflow"):
+                continue
+            a_, b_ = st["rv"]["a"], st["rv"]["b"]
+            if a_["k"] == "const" or ((a_.get("pl") or {}).get("ty") or "") != "usize":
+                continue
+            ae = strip_refs(expr_operand(b, a_))
+            if not any(ae == strip_refs(x) for de in ups for x in (de[2], de[3])):
+                continue
+            if not ((not st["pl"]["p"] and not a_["pl"]["p"] and st["pl"]["l"] == a_["pl"]["l"]) or _written_back(b, bb, si, st, a_)):
+                continue
+            n += 1
+            one = b_["k"] == "const" and str(b_.get("bits", b_.get("val"))).split("_")[0] in ("1", "0x1", "1usize")
+            ctx.check(one and st["rv"]["op"].startswith("Add"), rule, "step|%s" % short(b.id), m.where(b, bb),
+                      "the count of handed-out functions is incremented by exactly 1",
+                      "the counter compared with the number of functions changes by `%s %s`, not by `+ 1`: its `== total` test is stepped over or never reached" % (
+                          "+" if st["rv"]["op"].startswith("Add") else "-", fmt_expr(expr_operand(b, b_), b)))
     if n < 2:
         ctx.unverifiable(rule, "floor", "-", "expected >= 2 countdown decrements in the scheduler bodies, found %d" % n)
 
